@@ -77,6 +77,18 @@ fn constant_rich() -> Vec<String> {
         v.push(format!("has({})", e));
         v.push(format!("[1].map(i, {})", e));
     }
+    // folded map constants under macros whose body fails in different ways on different keys: the
+    // class of the error must not depend on the instance of the map the deserializer builds
+    let m12 = "{'1': 0, '2': 0, '3': 0, '4': 0, '5': 0, '6': 0, 'p': 0, 'q': 0, 'r': 0, 's': 0, 't': 0, 'u': 0}";
+    let m2 = "{'1': 0, 'p': 0}";
+    for m in [m12, m2] {
+        v.push(format!("{}.filter(k, 10 / (int(k) * x) >= 0)", m));
+        v.push(format!("{}.map(k, 10 / (int(k) * x))", m));
+        v.push(format!("{}.map(k, 10 / (int(k) * x) >= 0, k)", m));
+        v.push(format!("{}.map(k, true, 10 / (int(k) * x))", m));
+        v.push(format!("[1].map(i, {}.filter(k, 10 / (int(k) * x) >= 0))", m));
+        v.push(format!("{} == {{'1': 10 / x, 'p': int(y)}}", m2));
+    }
     v.sort();
     v.dedup();
     v
@@ -92,7 +104,7 @@ pub struct Space {
     srcs: Vec<String>,
 }
 
-const ASSIGN: [Option<&str>; 4] = [Some("1"), Some("'a'"), Some("true"), None];
+const ASSIGN: [Option<&str>; 5] = [Some("1"), Some("'a'"), Some("true"), Some("0"), None];
 
 impl Space {
     pub fn new(t: Tier) -> Space {
@@ -175,6 +187,20 @@ impl Space {
                     acc.violation(&format!("{} second-round-trip-differs", fmt), case(), format!("{} identical bytes", bytes.len()), format!("{} bytes", a.len()));
                 }
             }
+            // a map constant is rebuilt by every deserialization (new hasher, new iteration order):
+            // read the same bytes several times
+            let mut backs: Vec<Program> = vec![back.clone()];
+            if bc_text.contains("Map(") {
+                for _ in 0..7 {
+                    if let Ok(Ok(p)) = real::guarded("deserialize", || match fmt {
+                        "json" => serde_json::from_slice::<Program>(&bytes).map_err(|e| format!("{}", e)),
+                        _ => bincode::deserialize::<Program>(&bytes).map_err(|e| format!("{}", e)),
+                    }) {
+                        backs.push(p);
+                        acc.eval();
+                    }
+                }
+            }
             // behaviour under bindings
             let vars: Vec<String> = orig_params.iter().filter(|p| ["x", "y", "z", "w", "p", "q", "l"].contains(&p.as_str())).cloned().collect();
             for a in ASSIGN {
@@ -191,17 +217,17 @@ impl Space {
                     }
                 }
                 let r1 = real::exec_prog(prog.clone(), &b);
-                let r2 = real::exec_prog(back.clone(), &b);
-                acc.evals(2);
+                acc.eval();
                 acc.class(&r1.class());
+                for back in &backs {
+                let r2 = real::exec_prog(back.clone(), &b);
+                acc.eval();
                 if r2.is_panic() {
                     acc.violation(&format!("{} round-tripped-program-panics", fmt), case(), r1.show(), r2.show());
                 } else if !r1.agrees(&r2) {
                     // now()/timestamp() read the clock: only the class is compared for them
-                    if src.contains("now()") || src.contains("timestamp()") {
-                        if r1.class() == r2.class() {
-                            continue;
-                        }
+                    if (src.contains("now()") || src.contains("timestamp()")) && r1.class() == r2.class() {
+                        continue;
                     }
                     let what = classify_constants(&bc_text);
                     acc.violation(
@@ -210,6 +236,8 @@ impl Space {
                         r1.show(),
                         r2.show(),
                     );
+                    break;
+                }
                 }
                 if vars.is_empty() {
                     break;
@@ -257,7 +285,7 @@ pub fn run(t: Tier) -> i32 {
     let mut rep = Report::new(ID, t, "exploration");
     let sp = Space::new(t);
     rep.rule = format!(
-        "programs: {} programs = the C10 program set (C09's templates in every literal/variable mask, logic trees, matches, f-strings, macros, chains: every ByteCode variant and nested code blocks) plus {} constant-rich programs (every serialisable value variant with boundary payloads - int/uint extremes, +-0.0, +-inf, NaN, subnormal, strings with quotes/NUL/non-BMP, all 256 bytes, nested lists and maps, types, timestamps and durations at millisecond resolution incl. negative and extreme - and every error constant the folder produces, each alone, in a list, a map, a comparison, a macro, a ternary and a coalesce) x {{serde_json, bincode}}: serialization and deserialization succeed, source and parameter set are equal, a second round trip has the same bytes, and original and round-tripped program give the same value or the same error kind under 4 bindings of their variables. Non-trivial = every compiled program; distinct by source",
+        "programs: {} programs = the C10 program set (C09's templates in every literal/variable mask, logic trees, matches, f-strings, macros, chains: every ByteCode variant and nested code blocks) plus {} constant-rich programs (every serialisable value variant with boundary payloads - int/uint extremes, +-0.0, +-inf, NaN, subnormal, strings with quotes/NUL/non-BMP, all 256 bytes, nested lists and maps, types, timestamps and durations at millisecond resolution incl. negative and extreme - and every error constant the folder produces, each alone, in a list, a map, a comparison, a macro, a ternary and a coalesce; folded maps of 2 and 12 keys under filter/map forms whose body fails with a different class on different keys) x {{serde_json, bincode}}: serialization and deserialization succeed, source and parameter set are equal, a second round trip has the same bytes, and original and round-tripped program give the same value or the same error kind under 5 bindings of their variables (1, 'a', true, 0, unbound); a program holding a map constant is read back 8 times from the same bytes (every reading builds a new map) and each reading is compared. Non-trivial = every compiled program; distinct by source",
         sp.srcs.len(),
         constant_rich().len()
     );
